@@ -63,11 +63,14 @@ def supervise(wd, ipath, spath, nsched, budget):
     binp = vlib.harness_bin("vh-api")
     start = 0
     deaths = []
+    dead_inputs = []
+    sched = json.load(open(spath))
     t0 = time.time()
     while start < nsched:
         if len(deaths) > 400:
             raise vlib.ToolError("worker died more than 400 times")
-        p = subprocess.run([binp, "c17", ipath, spath, out, str(start), str(budget)], stdout=subprocess.DEVNULL, stderr=subprocess.PIPE, timeout=7200)
+        p = subprocess.run([binp, "c17", ipath, spath, out, str(start), str(budget), ",".join(map(str, dead_inputs))],
+                           stdout=subprocess.DEVNULL, stderr=subprocess.PIPE, timeout=7200)
         # find where it stopped
         last_b = None
         done = False
@@ -90,6 +93,7 @@ def supervise(wd, ipath, spath, nsched, budget):
         if last_b is None or last_b in answered:
             raise vlib.ToolError("worker ended without finishing and without an open call: rc=%s %s" % (p.returncode, p.stderr[-500:]))
         deaths.append({"pos": last_b, "rc": p.returncode, "stderr": p.stderr.decode("utf-8", "replace")[-300:]})
+        dead_inputs.append(sched[last_b][0])
         with open(out, "a") as f:
             f.write("D %d %d\n" % (last_b, p.returncode))
         start = last_b + 1
@@ -118,7 +122,7 @@ def build_trace(out_path, sched, inputs):
             events.append({"ev": "abort", "pos": pos, "i": i, "ep": inputs[i]["ep"], "rc": rc, "obj": "", "last": True})
         else:
             r = json.loads(ln)
-            if r["ev"] == "end":
+            if r["ev"] in ("end", "skipped"):
                 continue
             if r["ev"] in ("call", "edit"):
                 r["last"] = r["pass"] in ("B", "E")
@@ -166,7 +170,7 @@ def run(rep, tier):
     spath = os.path.join(wd, "sched.json")
     json.dump(sched, open(spath, "w"))
     vlib.build_harness("vh-api")
-    out, deaths = supervise(wd, ipath, spath, len(sched), 20)
+    out, deaths = supervise(wd, ipath, spath, len(sched), 12)
     events = build_trace(out, sched, inputs)
     tpath = os.path.join(wd, "trace.ndjson")
     keep = ("ev", "pos", "i", "ep", "last", "outcome", "res", "obj", "before", "after", "ruleset")
@@ -182,8 +186,11 @@ def run(rep, tier):
     rep.add_tlc(res, "trace")
     bad = sorted({int(t.split(",")[0]) for t in res.tuples("MISMATCH")})
     ncalls = sum(1 for e in events if e["ev"] in ("call", "edit"))
-    if ncalls + sum(1 for e in events if e["ev"] in ("abort", "timeout")) != len(sched):
-        raise vlib.ToolError("log holds %d calls for a schedule of %d" % (ncalls, len(sched)))
+    ndead = sum(1 for e in events if e["ev"] in ("abort", "timeout"))
+    dead = {e["i"] for e in events if e["ev"] in ("abort", "timeout")}
+    nskipped = sum(1 for x in sched if x[0] in dead) - ndead      # later occurrences of inputs that did not return are not called again
+    if ncalls + ndead + nskipped < len(sched) or ncalls + ndead > len(sched):
+        raise vlib.ToolError("log holds %d calls and %d deaths for a schedule of %d" % (ncalls, ndead, len(sched)))
     first = {}
     for idx, e in enumerate(events):
         if "i" in e and e["i"] not in first:
@@ -224,7 +231,7 @@ def run(rep, tier):
     rep.cov["distinct_nontrivial"] = sum(1 for x in pure if x["why"] != "seed") + len(edits)
     rep.cov["exhaustive"] = False
     rep.cov["rule"] = RULE
-    rep.assumptions += ["calls run on a thread with an 8 MiB stack (the Linux main-thread default); the time budget per call is 20 s",
+    rep.assumptions += ["calls run on a thread with an 8 MiB stack (the Linux main-thread default); the time budget per call is 12 s",
                         "results are compared by a 64-bit digest of their Debug / Display / JSON rendering",
                         "size bounds: strings up to 70000 bytes, JSON nesting up to 200, HTML nesting up to 21800 (what fits in a 65535-byte event)"]
 
